@@ -57,8 +57,14 @@ func Harness_C01_flow_through_transport() {
 		fieldSensitive = verifPick("field-sensitive", 0, 1) == 1
 		onDemand = verifPick("on-demand", 0, 1) == 1
 	}
+	// The deferred-store transport reads the cell after the RunDefers instruction inside the same function, a shape the
+	// Go compiler never produces; with field sensitivity the traversal did not terminate on it (being triaged with
+	// realistic programs, DESIGN section 5 "FS-2"): outside the field-sensitive claim.
+	verifAssume(!(fieldSensitive && df.VerifDeferStoreTransport(t)))
 	w := df.VerifBuildDirectFlow([]int{t}, []int{variant}, split, sinkForm, stringData)
-	verifAssert("explicit-source-to-sink-flow-is-reported", c01ProgReported(w, c01ProgConfig(fieldSensitive, onDemand)))
+	// field-sensitive, string data through a map inside a callee, sink receiving a struct: recorded finding
+	known := fieldSensitive && stringData && df.VerifMapTransport(t) && split == 0 && sinkForm == 1
+	verifAssertKnown("explicit-source-to-sink-flow-is-reported", "KF-C01-field-sensitive-map-in-callee", known, c01ProgReported(w, c01ProgConfig(fieldSensitive, onDemand)))
 }
 
 // C05 on whole programs: the reported (source, sink) pairs of the whole pipeline are the same with
@@ -113,34 +119,3 @@ func Harness_C05_on_demand_whole_pipeline_pairs_T() {
 	verifAssert("same-verdict-with-summarize-on-demand-on-and-off", eager == onDemand)
 }
 
-func Harness_C01_dbgfs_T() {
-	t := verifPick("transport", 0, df.VerifNumTransports-1)
-	verifAssume(df.VerifSequentialTransport(t))
-	variant := verifPick("variant", 0, 1)
-	split := verifPick("split", 0, 1)
-	sinkForm := verifPick("sink-form", 0, 1)
-	stringData := verifPick("string-data", 0, 1) == 1
-	w := df.VerifBuildDirectFlow([]int{t}, []int{variant}, split, sinkForm, stringData)
-	tag := "-" + string(rune('A'+t)) + string(rune('0'+variant)) + string(rune('0'+split)) + string(rune('0'+sinkForm))
-	if stringData {
-		tag += "s"
-	}
-	cfg := c01ProgConfig(true, false)
-	verifOneSchedule(true)
-	verifTerminatesWithin("terminates"+tag, 30000000)
-	res, _ := Analyze(cfg, w.Prog, nil)
-	verifTerminated()
-	found := false
-	if res.TaintFlows != nil {
-		for sinkNode, sources := range res.TaintFlows.Sinks {
-			if sinkNode.Instr == w.Sink {
-				for s := range sources {
-					if s.Instr == w.Source {
-						found = true
-					}
-				}
-			}
-		}
-	}
-	verifAssert("reported"+tag, found)
-}
